@@ -226,6 +226,19 @@ def authz_cases(ctx, w, table, full: bool):
                 if nf is not None:
                     for ov in rq.JWT_LOCATION_OVERLAYS:
                         out.append((row, nf, ov))
+            # accounts of the USER group whose stored names are special to lookup machinery other than exact
+            # equality (wildcards, case, spaces, prefixes, numeric, maximal length; c15_world.SHADOWS): their
+            # own session cookie and tokens must give them a plain user's rights and their own row only
+            import c15_world
+            for sid in c15_world.SHADOWS:
+                targets = [sid, "victim", "admin", "media"] if row["route"] == "api-edit-user" else ["victim"]
+                for tg in targets:
+                    for base in (rq.vec(session=sid, token=sid, target=tg),
+                                 rq.vec(session=sid, token=sid, target=tg, csrfOk=False)):
+                        nf = rq.normalise(w, row, base)
+                        if nf is not None:
+                            out.append((row, nf, "minimal"))
+                            break
     return out
 
 
@@ -343,8 +356,11 @@ def authz_channel(ctx, w, table) -> Channel:
         except Exception as e:
             ch.errors.append(f"{case_json(row, v, overlay)}: {type(e).__name__}: {e}")
             continue
-        pairs.add((row["route"], row["method"], role))
-        if row["mutates"]:
+        if rq.is_shadow(role):
+            ch.count("credentials|account with a lookup-special stored name")
+        else:
+            pairs.add((row["route"], row["method"], role))
+        if row["mutates"] and not rq.is_shadow(role):
             cred_pairs.add((row["route"], row["method"], v["session"], v["token"], v["refresh"]))
         cj = case_json(row, v, overlay)
         ch.count(f"parameters|{overlay}")
@@ -462,6 +478,43 @@ def history_channel(ctx, w, table) -> Channel:
                             "changed": diff + (["blobs"] if after[1] != before[1] else []),
                             "status": obs["status"], "request": obs["request"]})
         ch.sample({"row": [row["route"], row["method"]], "documented_change": obs0["changed"]}, limit=2)
+    w.restore()
+    return ch
+
+
+def identity_channel(ctx, w, table) -> Channel:
+    """which stored account a credential is resolved to"""
+    import c15_world
+    ch = Channel("identity", rule=(
+        "every account that can log in (admin, media, user and the USER-group accounts whose stored names contain "
+        "LIKE wildcards, case variants, surrounding spaces, prefixes / extensions of privileged names, numeric "
+        "names, a 32-character name) presents its own refresh token to GET /api/login: the account the server "
+        "reports must be the caller's own row; compared with the Lean model's exact-equality lookup over the "
+        "stored names in primary-key order; non-trivial = the name is not one of the three fixture names"))
+    w.restore()
+    accounts = w.ids["all_accounts"]
+    names = ",".join(hx(n) for _, n in accounts)
+    order = list(c15_world.ROLES[1:]) + list(c15_world.SHADOWS)
+    lines = [f"lookup {names} {hx(w.creds[a][0])}" for a in order]
+    try:
+        model = common.run_driver(lines)
+    except Exception as e:
+        ch.errors.append(f"driver: {e}")
+        model = ["driver-error"] * len(lines)
+    for a, mo in zip(order, model):
+        ch.evaluations += 1
+        s_ = w.sessions[a]
+        r = w.app.test_client().get("/api/login", headers={"Authorization": f"Bearer {s_.refresh}"})
+        got = (r.json or {}).get("user", {}).get("pk") if r.status_code == 200 else None
+        want = accounts[int(mo)][0] if mo.isdigit() else None
+        if a in c15_world.SHADOWS:
+            ch.nontrivial.add(a)
+        ch.count("resolved to own row" if got == s_.pk else "resolved to ANOTHER row" if got else "not resolved")
+        if mo != "driver-error" and got != want:
+            ch.disagreements.append({"account": a, "stored_name": w.creds[a][0], "own_pk": s_.pk,
+                                     "model_resolves_to_pk": want, "server_resolves_to_pk": got,
+                                     "status": r.status_code})
+        ch.sample({"stored_name": w.creds[a][0], "own_pk": s_.pk, "server": got}, limit=4)
     w.restore()
     return ch
 
@@ -1099,6 +1152,7 @@ def channels(ctx):
     w = c15_world.world()
     snap = process_snapshot(w)
     yield xcheck_channel(w, table)
+    yield identity_channel(ctx, w, table)
     yield authz_channel(ctx, w, table)
     yield history_channel(ctx, w, table)
     yield csrf_channel(ctx, w, table)
